@@ -1,10 +1,54 @@
 import CueVerif.Driver.Proto
+import CueVerif.Spec.Trim
 namespace CueVerif.Driver.C20
-open CueVerif CueVerif.Driver
+open CueVerif CueVerif.Driver CueVerif.Trim
 
-/-- protocol handler for C20: words of one op line (after the property id) → answer -/
+/-- one conjunct: `<v>.<d>.<p|n>` (value mask, default mask, pattern / plain) -/
+def parseCj (s : String) : Option (Cj (DV Mask)) :=
+  match s.splitOn "." with
+  | [v, d, k] => do
+    let v ← v.toNat?
+    let d ← d.toNat?
+    pure { val := ⟨BitVec.ofNat 32 v, BitVec.ofNat 32 d⟩, pattern := k == "p" }
+  | _ => none
+
+def parseCjs (s : String) : Option (List (Cj (DV Mask))) :=
+  if s == "-" then some [] else (s.splitOn ",").mapM parseCj
+
+def showFinal : Option Mask → String
+  | none => "absent"
+  | some m => toString m.toNat
+
+def select : List α → List Char → List α
+  | x :: xs, '1' :: ks => x :: select xs ks
+  | _ :: xs, _ :: ks => select xs ks
+  | _, _ => []
+
 def handle (ws : List String) : String :=
   match ws with
+  | ["final", cs] =>
+    -- the default-resolved value of one vertex
+    match parseCjs cs with
+    | some C => showFinal (finalMask C)
+    | none => "bad-op"
+  | ["red", cs, keep] =>
+    -- is dropping the conjuncts not marked in `keep` invisible in the final value?
+    match parseCjs cs with
+    | some C =>
+      if keep.length != C.length then "bad-op" else
+      let Kp := select C keep.toList
+      if finalMask Kp == finalMask C then "ok"
+      else s!"changed {showFinal (finalMask C)} {showFinal (finalMask Kp)}"
+    | none => "bad-op"
+  | ["model-trim", cs] =>
+    -- what the specification-level trimmer keeps on a vertex of plain conjuncts
+    -- (answer: number kept, final value); pattern conjuncts are not accepted here
+    match parseCjs cs with
+    | some C =>
+      if C.any (·.pattern) then "bad-op" else
+      let T := trimModel bits.dv (fun c : Cj (DV Mask) => c.val) (fun _ => true) C
+      s!"{T.length} {showFinal (finalMask T)}"
+    | none => "bad-op"
   | _ => "bad-op"
 
 end CueVerif.Driver.C20
